@@ -243,6 +243,13 @@ vbi_pfc_demux_feed		(vbi_pfc_demux *	dx,
 		if (pgno < 0)
 			goto desynced;
 
+		if ((pgno ^ dx->block.pgno) & 0xF00) {
+			/* Header of another magazine. With parallel
+			   magazine transmission (C11 = 0) it does not
+			   terminate our page. */
+			return TRUE;
+		}
+
 		if (pgno != dx->block.pgno) {
 			dx->n_packets = 0;
 			return TRUE;
